@@ -158,6 +158,17 @@ func (a *adv) Step(j int, mech string, msg []byte, has bool) refsmtp.AuthStep {
 		} else {
 			text = b64(mkFirst("NoClientNonceYet" + fmt.Sprint(a.rn.T)))
 		}
+	case "zeroIterFirst", "negIterFirst": // the nonce extends the client's, the iteration count is 0 / -1: a key derived with it must still depend on the password
+		if a.cfBare != "" {
+			it := map[string]string{"zeroIterFirst": "0", "negIterFirst": "-1"}[sym]
+			a.srvFirst = fmt.Sprintf("r=%s,s=%s,i=%s", nonce+"SrvExt"+fmt.Sprint(a.rn.T), base64.StdEncoding.EncodeToString(a.salt), it)
+			a.lastFirst = a.srvFirst
+			a.cFinalWO = ""
+			firstValid = true
+			text = b64(a.srvFirst)
+		} else {
+			text = b64(mkFirst("NoClientNonceYet" + fmt.Sprint(a.rn.T)))
+		}
 	case "foreignNonce":
 		// a nonce that does not extend the client's, of exactly the length the valid one has (a message that
 		// fits any buffer the valid server-first fitted)
